@@ -283,13 +283,14 @@ GoodReserves(f) ==
 
 ZoneTok(z) == {t \in Tok : Cong(t) = z}
 
-(* every assignment of tokens to instance indexes (the zone of a token is its residue) in    *)
-(* which each (instance, zone) gets exactly R tokens; MaxInst+1 = "in nobody's reserve"       *)
+(* every assignment of the tokens of the modelled zones to instance indexes (the zone of a     *)
+(* token is its residue) in which each (instance, zone) gets exactly R tokens; MaxInst+1 = "in *)
+(* nobody's reserve"                                                                           *)
+InZones == {t \in Tok : Cong(t) \in Zones}
 Init ==
-  /\ \E own \in [Tok -> 0..(MaxInst+1)] :
-        LET Block(k) == {t \in Tok : own[t] = k[1] /\ Cong(t) = k[2]} IN
+  /\ \E own \in [InZones -> 0..(MaxInst+1)] :
+        LET Block(k) == {t \in InZones : own[t] = k[1] /\ Cong(t) = k[2]} IN
         /\ \A k \in Keys : Cardinality(Block(k)) = R
-        /\ \A t \in Tok : Cong(t) \notin Zones => own[t] = MaxInst+1
         /\ reserve = [k \in Keys |-> SortSet(Block(k))]
         /\ GoodReserves(reserve)
   /\ ring = EmptyFcn
